@@ -1,11 +1,13 @@
 #!/bin/bash
 # runs every registered check of the given tier sequentially; prints a summary
 TIER=${1:-quick}
-cd /verif
+V=${VERIF_DIR:-/verif}
+cd $V
+OUT=${RUNALL_OUT:-/tmp}
 for id in $(python3 -c "import json;print(' '.join(c['property_id'] for c in json.load(open('MANIFEST.json'))['checks']))"); do
   s=$(date +%s)
-  ./bin/symgo check $id -tier $TIER > /tmp/check_$id.log 2>&1
+  $V/bin/symgo check $id -tier $TIER > $OUT/check_${TIER}_$id.log 2>&1
   rc=$?
   e=$(date +%s)
-  echo "$id exit=$rc $((e-s))s $(grep -c 'INCONCLUSIVE\|VIOLATION property\|ENGINE-DIS' /tmp/check_$id.log) issues; $(tail -1 /tmp/check_$id.log)"
+  echo "$id exit=$rc $((e-s))s $(grep -c 'INCONCLUSIVE\|VIOLATION property\|ENGINE-DIS' $OUT/check_${TIER}_$id.log) issues; $(tail -1 $OUT/check_${TIER}_$id.log)"
 done
